@@ -318,6 +318,21 @@ fn lookup(input: &str, output: &str, scratch: &str) -> i32 {
                 }
             }
         }
+        // names nobody defines must not resolve (whatever f:a resolves to)
+        if problem.is_none() {
+            for u in rec["unknown"].as_array().map(|a| a.to_vec()).unwrap_or_default() {
+                let name = u.as_str().unwrap_or("").to_string();
+                evals += 1;
+                match guarded(|| ctx.get_mut().op(&name).map_err(|e| format!("{e:?}"))) {
+                    Err(p) => problem = Some(json!({"what":"panic","name":name,"msg":p})),
+                    Ok(Ok(_)) => problem = Some(json!({"what":"unknown_name_resolved","name":name})),
+                    Ok(Err(_)) => {}
+                }
+                if problem.is_some() {
+                    break;
+                }
+            }
+        }
         if let Some(mut p) = problem {
             bad += 1;
             p["config"] = rec.clone();
